@@ -425,7 +425,38 @@ def main():
     for fn in ("skip", "scanNext", "scanWhile", "value", "array", "object", "literalStore", "valueInterface",
                "arrayInterface", "objectInterface", "literalInterface", "unmarshal", "init"):
         cc["decodeState." + fn] = conditions(func_body(decode, r"^func \(d \*decodeState\) " + fn + r"\("))
+    # the streams transcribed in JP/Codec/Stream.lean (refill is abstracted there: its conditions are kept as a
+    # fact so that a change to the buffering is noticed)
+    stream = read(os.path.join(repo, "v5/internal/json/stream.go"))
+    for fn in ("Decode", "readValue", "refill", "Token", "More", "peek", "tokenPrepareForDecode", "tokenValueAllowed", "tokenValueEnd"):
+        cc["Decoder." + fn] = conditions(func_body(stream, r"^func \(dec \*Decoder\) " + fn + r"\("))
+    cc["Encoder.Encode"] = conditions(func_body(stream, r"^func \(enc \*Encoder\) Encode\("))
+    cc["nonSpace"] = conditions(func_body(stream, r"^func nonSpace\("))
+    # the encoder functions transcribed in JP/Codec/Typed.lean (typed values: structs, tags, maps, slices, pointers)
+    tags_go = read(os.path.join(repo, "v5/internal/json/tags.go"))
+    for fn in ("isEmptyValue", "newTypeEncoder", "boolEncoder", "intEncoder", "uintEncoder", "stringEncoder", "isValidNumber",
+               "interfaceEncoder", "newMapEncoder", "encodeByteSlice", "newSliceEncoder", "isValidTag", "typeByIndex", "typeFields",
+               "dominantField"):
+        cc[fn] = conditions(func_body(encode, r"^func " + fn + r"\("))
+    for recv, fn in (("se structEncoder", "encode"), ("me mapEncoder", "encode"), ("se sliceEncoder", "encode"), ("ae arrayEncoder", "encode"),
+                     ("pe ptrEncoder", "encode"), ("w \\*reflectWithString", "resolve"), ("x byIndex", "Less")):
+        cc[recv.split(" ")[1].replace("\\*", "") + "." + fn] = conditions(func_body(encode, r"^func \(" + recv + r"\) " + fn + r"\("))
+    cc["parseTag"] = conditions(func_body(tags_go, r"^func parseTag\("))
+    cc["tagOptions.Contains"] = conditions(func_body(tags_go, r"^func \(o tagOptions\) Contains\("))
     facts["codecConditions"] = cc
+    # the token-state constants in their iota order; where the sticky `dec.err` is assigned (only in readValue);
+    # the expression More returns (it has no branch of its own)
+    facts["tokenStates"] = iota_block(stream, "tokenTopValue")
+    ss = []
+    for fn in ("Decode", "readValue", "refill", "Token", "More", "peek", "tokenPrepareForDecode", "tokenValueAllowed", "tokenValueEnd", "tokenError"):
+        bd = func_body(stream, r"^func \(dec \*Decoder\) " + fn + r"\(") or ""
+        ss.append((fn + ".stickyAssigns", str(len(re.findall(r"dec\.err = ", bd)))))
+    mb = func_body(stream, r"^func \(dec \*Decoder\) More\(") or ""
+    mm = re.search(r"return ([^\n]*)", mb)
+    ss.append(("More.returns", mm.group(1).strip() if mm else ""))
+    eb = func_body(stream, r"^func \(enc \*Encoder\) Encode\(") or ""
+    ss.append(("Encode.newline", str(len(re.findall(r"e\.WriteByte\('\\n'\)", eb)))))
+    facts["streamShape"] = ss
     lc = {}
     for recv, fn in (("partialDoc", "set"), ("partialDoc", "add"), ("partialDoc", "get"), ("partialDoc", "remove"), ("partialArray", "set"),
                      ("partialArray", "add"), ("partialArray", "get"), ("partialArray", "remove")):
@@ -488,6 +519,9 @@ def main():
     L.append(f"def inputWrites : Nat := {facts['inputWrites']}")
     L.append("def codecConditions : List (String × List String) := " + lean_list(
         "(" + lean_str(k) + ", " + lean_list(lean_str(x) for x in v) + ")" for k, v in sorted(cc.items())))
+    L.append("def tokenStates : List String := " + lean_list(lean_str(x) for x in facts["tokenStates"]))
+    L.append("def streamShape : List (String × String) := " + lean_list(
+        "(" + lean_str(k) + ", " + lean_str(v) + ")" for k, v in facts["streamShape"]))
     L.append("def legacyConditions : List (String × List String) := " + lean_list(
         "(" + lean_str(k) + ", " + lean_list(lean_str(x) for x in v) + ")" for k, v in sorted(lc.items())))
     L.append("def conditions : List (String × List String) := " + lean_list(
